@@ -188,10 +188,12 @@ class Context:
             s = uf('sin')(x)
             self._ax(r * r + s * s == 1, "cos^2+sin^2=1")
             self._ax(z3.And(r >= -1, r <= 1, s >= -1, s <= 1), "|cos|,|sin|<=1")
+            self._ax(z3.Implies(x == 0, z3.And(r == 1, s == 0)), "cos(0)=1, sin(0)=0")
         elif name == 'sin':
             c = uf('cos')(x)
             self._ax(r * r + c * c == 1, "cos^2+sin^2=1")
             self._ax(z3.And(r >= -1, r <= 1, c >= -1, c <= 1), "|cos|,|sin|<=1")
+            self._ax(z3.Implies(x == 0, z3.And(c == 1, r == 0)), "cos(0)=1, sin(0)=0")
         elif name == 'qfunc':
             self._ax(z3.And(r > 0, r < 1), "0<Q(x)<1")
             self._ax(z3.And(z3.Implies(x == 0, 2 * r == 1), z3.Implies(x > 0, 2 * r < 1),
@@ -210,6 +212,15 @@ class Context:
                 self._ax(z3.Implies(z3.And(o[1] == e, e >= 1, b >= 0, o[0] >= 0),
                                     z3.And((b <= o[0]) == (r <= ro), (b == o[0]) == (r == ro))),
                          "b^e increasing in b>=0 for fixed e>=1")
+        if name in ('cos', 'sin'):
+            # even / odd symmetry instances against earlier applications at the negated argument
+            for (b, rb) in self.apps[name][:-1]:
+                try:
+                    z = z3.simplify(x + b[0])
+                    if (z3.is_rational_value(z) or z3.is_int_value(z)) and z.as_fraction() == 0:
+                        self._ax(r == rb if name == 'cos' else r == -rb, "cos(-x)=cos(x), sin(-x)=-sin(x)")
+                except Exception:
+                    pass
         # pairwise monotonicity / injectivity instances with earlier applications
         if name in MONO_INC or name in MONO_DEC:
             for (b, rb) in self.apps[name][:-1]:
@@ -225,6 +236,40 @@ class Context:
                 else:
                     self._ax(z3.Implies(dom, z3.And((x < y) == (r > rb), (x == y) == (r == rb))),
                              "%s strictly decreasing" % name)
+
+    def trig_rules(self):
+        """ground trigonometric relations among the cos/sin applications created so far, for the ring
+        normaliser: sin^2(x) = 1 - cos^2(x); cos(-x) = cos(x); sin(-x) = -sin(x)"""
+        cos_apps = {a[0].get_id(): (a[0], r) for a, r in self.apps.get('cos', [])}
+        sin_apps = {a[0].get_id(): (a[0], r) for a, r in self.apps.get('sin', [])}
+        if not cos_apps and not sin_apps:
+            return None
+        pairs, rename = {}, {}
+        args = {}
+        for k, (x, r) in list(cos_apps.items()) + list(sin_apps.items()):
+            args[k] = x
+        for k, x in args.items():
+            c_t, s_t = uf('cos')(x), uf('sin')(x)
+            pairs[s_t.get_id()] = c_t.get_id()
+        keys = list(args)
+        canon = {}
+        for i, k in enumerate(keys):
+            if k in canon:
+                continue
+            canon[k] = k
+            for k2 in keys[i + 1:]:
+                if k2 in canon:
+                    continue
+                try:
+                    z = z3.simplify(args[k] + args[k2])
+                    if (z3.is_rational_value(z) or z3.is_int_value(z)) and z.as_fraction() == 0:
+                        canon[k2] = k
+                        x, y = args[k], args[k2]
+                        rename[uf('cos')(y).get_id()] = (1, uf('cos')(x).get_id())
+                        rename[uf('sin')(y).get_id()] = (-1, uf('sin')(x).get_id())
+                except Exception:
+                    pass
+        return (rename, pairs)
 
     # ------------------------------------------------------------ solver
     def _solver(self, timeout_ms):
@@ -278,7 +323,7 @@ class Context:
         goal = lift(goal)
         if not isinstance(goal, SBool):
             raise TypeError("prove needs a boolean goal")
-        if _ring_valid(goal.t):
+        if _ring_valid(goal.t, self.trig_rules()):
             # the goal is a conjunction of polynomial identities that hold by the commutative-ring
             # axioms alone (exact sum-of-monomials normal form); no solver call needed
             STATS["ring_proofs"] = STATS.get("ring_proofs", 0) + 1
@@ -297,17 +342,17 @@ class Context:
         return s.to_smt2()
 
 
-def _ring_valid(t):
+def _ring_valid(t, trig=None):
     from . import poly
     try:
         if z3.is_true(t):
             return True
         if z3.is_and(t):
-            return all(_ring_valid(c) for c in t.children())
+            return all(_ring_valid(c, trig) for c in t.children())
         if z3.is_eq(t):
             a, b = t.children()
             if z3.is_arith(a) and z3.is_arith(b):
-                return poly.is_zero(a - b)
+                return poly.is_zero(a - b, trig=trig)
     except Exception:
         return False
     return False
